@@ -41,7 +41,7 @@ def correspond(rep, tier, seed):
     n_viol += wake.oracle_coop(rep, scs, name="coop-closure(traced)")
     # more closures without traces (cheap)
     more = []
-    per = 50 if tier == "quick" else 1500
+    per = 50 if tier == "quick" else 900
     for pi, prof in enumerate(("legal", "queue", "bufcap", "starve", "flow", "limits", "recv", "bp", "mixed", "reset", "shutdown", "control")):
         s2, _ = wake.run_coop(seed * 104729 + 17 * pi + 3, per, 110 if tier == "quick" else 150, prof, trace=False, budget=4000 if tier == "quick" else 8000)
         more.extend(s2)
